@@ -290,6 +290,12 @@ func ReadPqmr(fname *string) (*SegmentPQMRResults, error) {
 		}
 		offset += int64(bsSize)
 
+		err = utils.CheckSerializedBitsetFits(bsBlk[:bsSize])
+		if err != nil {
+			log.Errorf("ReadPqmr: failed to unmarshall bitset err=[%+v] blkNum=%v", err, blkNum)
+			return nil, err
+		}
+
 		bs := bitset.New(0)
 		err = bs.UnmarshalBinary(bsBlk[:bsSize])
 		if err != nil {
